@@ -163,6 +163,17 @@ const char *rt_op_fn (const struct rt_op *o, char *buf, size_t n) {
 	return buf;
 }
 
+/* is fiber t currently inside the function called `name` (anywhere on its stack of instrumented frames)? */
+int rt_in_function (int t, const char *name) {
+	struct fiber *f;
+	char b[64];
+	int i;
+	if (!G || t < 0 || t >= G->nf) return 0;
+	f = &G->f[t];
+	for (i = 0; i < f->fdepth && i < FSTACK; i++) { rt_fn_name (f->fstack[i], b, sizeof b); if (!strcmp (b, name)) return 1; }
+	return 0;
+}
+
 /* ------------------------------------------------------------------ violations */
 static const char *innermost_fn (struct fiber *f, char *buf, size_t n) {
 	int i;
